@@ -58,13 +58,37 @@ package zksch
 
 //@ func (*Response).Verify
 //@   nopanic[C05]
-//@   modifies hstate(hash)
+//@   modifies hstate(hash), wlog(hash.h)
 //@   requires hash != nil && hash.h != nil && public != nil && commitment != nil && shapedComm(commitment) && (z != nil ==> shapedResp(z))
 
 //@ func (*Proof).Verify
 //@   nopanic[C05]
-//@   modifies hstate(hash)
+//@   modifies hstate(hash), wlog(hash.h)
 //@   requires hash != nil && hash.h != nil && public != nil && (p != nil ==> shapedProof(p))
 
 //@ func (*Commitment).WriteTo
 //@   ensures[C10,C19] result1 == nil ==> wlog(w) == wcat(old(wlog(w)), benc(c.C))
+
+// In a group of prime order only the zero scalar sends the generator to the identity (A-LIB-EC).
+//@ rawaxiom[gennz] (forall ((x Int)) (! (=> (= (act x gen) p_id) (= x s_zero)) :pattern ((act x gen))))
+
+// The prover refuses (returns nil) for the identity or a zero secret; NewProof dereferences the response, so its
+// callers must pass a non-zero secret and a non-identity public point (local key material, never network input).
+//@ func (*Randomness).Prove
+//@   nopanic[C05]
+//@   requires r != nil && r.a != nil && r.commitment.C != nil && hash != nil && hash.h != nil && public != nil && secret != nil
+//@   modifies hstate(hash), wlog(hash.h)
+//@   allocates
+//@   ensures (ptval(public) != p_id() && scval(secret) != s_zero()) ==> (result != nil && shapedResp(result))
+//@ func NewRandomness
+//@   nopanic[C05]
+//@   requires rand != nil && group != nil
+//@   modifies hstate(rand)
+//@   allocates
+//@   ensures result != nil && fresh(result) && result.a != nil && result.commitment.C != nil
+//@ func NewProof
+//@   nopanic[C05]
+//@   requires hash != nil && hash.h != nil && public != nil && private != nil && ptval(public) != p_id() && scval(private) != s_zero()
+//@   modifies hstate(hash), wlog(hash.h)
+//@   allocates
+//@   ensures result != nil && shapedProof(result)
